@@ -329,6 +329,16 @@ class Peer:
             self._misbehave_pre(f, pid, n, sys._getframe(1).f_globals)
         return lambda obj: obj
 
+    def sayval(self, pid):
+        """returns a plain, shared (non-unique) string value"""
+        dtid, k, n = self._hit(pid)
+        f = self._fault(dtid, k, pid, n)
+        if f is not None:
+            self._misbehave_pre(f, pid, n, sys._getframe(1).f_globals)
+            if f['kind'] == 'wrong':
+                return 'wrong'
+        return 'okay'
+
     def say(self, text, pid):
         """prints a shared, non-unique line"""
         dtid, k, n = self._hit(pid)
@@ -502,7 +512,7 @@ PEER = Peer()
 def install():
     """Create the module object `_xdsim` whose attributes forward to PEER."""
     mod = types.ModuleType(MODNAME)
-    for name in ('op', 'emit', 'emitop', 'emitnoeol', 'abg', 'deco', 'say', 'aop', 'actx', 'point', 'names', 'modglobal', 'importing'):
+    for name in ('op', 'emit', 'emitop', 'emitnoeol', 'abg', 'deco', 'sayval', 'say', 'aop', 'actx', 'point', 'names', 'modglobal', 'importing'):
         setattr(mod, name, getattr(PEER, name))
     mod.Val = Val
     mod.SimError = SimError
